@@ -39,8 +39,17 @@ def run(ctx):
         key = "K3|add-assign-field|%s" % f
         uses = pairs.get(f, [])
         ok = len(uses) == 1 and uses[0][0] == f and uses[0][1] in MERGING
-        res.site(key, True, {"field": f, "merged_into": [(u[0], u[2]) for u in uses], "verdict": "ok" if ok else "VIOLATION"})
+        on_all_paths = None
+        if ok:
+            # the merge must happen on every path through add_assign (no early return / fast path around it)
+            blocks = {bb for bb, t, c in aa.calls() if t["sp"] == uses[0][3]}
+            on_all_paths = aa.all_paths_pass(0, blocks)
+            ok = on_all_paths
+        res.site(key, True, {"field": f, "merged_into": [(u[0], u[2]) for u in uses], "on_all_paths": on_all_paths, "verdict": "ok" if ok else "VIOLATION"})
         if not ok:
+            if on_all_paths is False:
+                res.find(key, aa.loc(uses[0][3]), "`rhs.%s` is merged into `self.%s` only on some paths of add_assign: another path (early return / fast path) skips the merge" % (f, f), "A += B where A is 'empty' by the fast path's test but still holds definitions (e.g. only calibrations)")
+                continue
             if not uses:
                 msg = "`rhs.%s` is never merged into `self`: the right operand's %s are dropped by A += B" % (f, f)
             elif uses[0][0] != f:
